@@ -70,7 +70,10 @@ RULE = ("exhaustive small scope: every signature of arity 1..4 (quick) / 1..5 (t
         "written as x.att / x.get() / x.items[0] / x.box.inner / x.plus(1, by=99) that hand fresh temporaries to the "
         "callable, long domains after a binding conjunct, and histories: ONE query object evaluated, the candidate "
         "objects mutated, evaluated again (up to 3 evaluations), every evaluation compared with the concrete calls in "
-        "its own world; "
+        "its own world; plus a constants stream: >= 2 ordinary-object arguments per symbolic call drawn from a pool of "
+        "==-equal values of different types (1 / 1.0 / True / Fraction(1) / 1+0j, 0 / 0.0 / False, two equal tuples, "
+        "two equal frozensets), value-equal user objects and equal lists, every pair of variants of one number for "
+        "every kind, the call log identifying each constant by identity; "
         "non-trivial = the call is symbolic and the result set is neither empty nor every candidate binding, or the "
         "call is concrete with at least two parameters; distinct by case text")
 EXHAUSTIVE = True
@@ -86,7 +89,8 @@ class Spec:
     def __init__(self, kind, params, pos, kw, doms, pre, neg, salt, mod, vals, knobs=None, hist=None):
         self.kind = kind  # fn | method | pred
         self.params = params  # [(name, default or None)]
-        self.pos = pos  # [("l", n) | ("v", i) | ("a", i, k)]   ("a": variable i through accessor k, see ACCESSORS)
+        self.pos = pos  # [("l", n) | ("l", n, t) | ("v", i) | ("a", i, k)]   ("a": variable i through accessor k, see
+        # ACCESSORS; ("l", n, t): constant number n in variant t - an ==-equal but different object, see CONST_VARIANTS)
         self.knobs = dict(knobs or {})  # class-level knob name -> True if the non-default alternative is set
         self.hist = list(hist or [])  # [{oid: state}]: worlds in which the SAME query object is evaluated again
         self.kw = kw  # [(name, arg)]
@@ -99,7 +103,11 @@ class Spec:
 
     def line(self) -> str:
         def a(x):
-            return f"(a {x[2]} {x[1]})" if x[0] == "a" else f"({x[0]} {x[1]})"
+            if x[0] == "a":
+                return f"(a {x[2]} {x[1]})"
+            if x[0] == "l" and len(x) > 2 and x[2]:
+                return f"(l {x[1]} {x[2]})"
+            return f"({x[0]} {x[1]})"
         ps = " ".join(f"({n})" if d is None else f"({n} {d})" for n, d in self.params)
         pos = " ".join(a(x) for x in self.pos)
         kw = " ".join(f"({n} {a(x)})" for n, x in self.kw)
@@ -147,8 +155,15 @@ class Spec:
             t.append("falsy-domain")
         if zero_vars & set(self.pre):
             t.append("falsy-prebound")
-        if any(a == ("l", 0) for a in w):
+        if any(a[0] == "l" and a[1] == 0 for a in w):
             t.append("falsy-literal")
+        lits = [(a[1], a[2] if len(a) > 2 else 0) for a in w if a[0] == "l"]
+        if len(lits) >= 2:
+            t.append("constants>=2")
+        if any(v for _, v in lits):
+            t.append("const-variant")
+        if any(n1 == n2 and v1 != v2 for j, (n1, v1) in enumerate(lits) for (n2, v2) in lits[j + 1:]):
+            t.append("const-equal-but-different")
         for x in w:
             if x[0] == "a":
                 t.append("accessor-" + ACCESSORS.get(x[2], ("?",))[0])
@@ -186,6 +201,8 @@ def parse_line(line: str) -> Spec:
     def arg(x):
         if x[0] == "a":
             return ("a", int(x[2]), int(x[1]))
+        if x[0] == "l" and len(x) > 2 and int(x[2]):
+            return ("l", int(x[1]), int(x[2]))
         return (x[0], int(x[1]))
 
     params = [(p[0], int(p[1]) if len(p) > 1 else None) for p in f["params"]]
@@ -222,6 +239,14 @@ ACCESSORS = {
     3: ("index", lambda x: x.items[0]),
     4: ("attribute-chain", lambda x: x.box.inner),
     5: ("method-call-args", lambda x: x.plus(1, by=99)),
+}
+CONST_VARIANTS = {
+    # flavour -> variants t >= 1 of the constant with number n: values that compare == (and hash alike) to each other
+    # or to the plain constant but are different objects / types.  Lean: Arg.lit (n + 1000*t), printed n~t.
+    "int": [1, 2, 3, 4, 5, 6, 7, 8],  # float, bool/Fraction, Fraction, complex, two equal tuples, two equal frozensets
+    "obj": [1, 2, 3],  # value-equal user objects (__eq__/__hash__ by number), distinct instances
+    "fobj": [1, 2, 3],
+    "list": [1, 2],  # equal lists, distinct objects (unhashable)
 }
 OBJECT_FLAVOURS = ("obj", "fobj")  # candidates are objects with identity, mutable state and accessors
 
@@ -303,7 +328,7 @@ def _call_shapes(n: int, nd: int):
 
 
 def _fill(rng, kind, n, nd, supplied, k, pattern, *, share=None, pre=None, neg=None, max_dom=3,
-          falsy=False, vals=None, p_acc=0.12, p_hist=0.1, dom_range=None) -> Spec:
+          falsy=False, vals=None, p_acc=0.12, p_hist=0.1, dom_range=None, p_variant=0.15, p_equal=0.2) -> Spec:
     names = NAMES[:n]
     if rng.random() < 0.3:
         names = rng.sample(["a", "b", "c", "d", "obj", "other", "x_", "value", "name", "type_"], n)
@@ -352,6 +377,24 @@ def _fill(rng, kind, n, nd, supplied, k, pattern, *, share=None, pre=None, neg=N
         for i in distinct[1:]:
             doms[i] = doms[i][:1]
     knobs = {name: rng.random() < 0.5 for name in knobs_table()}
+    if vals in CONST_VARIANTS:
+        # constants: ==-equal values of different types / equal-but-distinct objects, also for several parameters
+        lit_slots = [("p", j) for j, x in enumerate(pos) if x[0] == "l"] + \
+                    [("k", j) for j, (_, x) in enumerate(kw) if x[0] == "l"]
+        same = len(lit_slots) >= 2 and rng.random() < p_equal
+        number = None
+        for where, j in lit_slots:
+            x = pos[j] if where == "p" else kw[j][1]
+            n_ = x[1]
+            if same:
+                number = n_ if number is None else number
+                n_ = number
+            t_ = rng.choice(CONST_VARIANTS[vals]) if rng.random() < (0.7 if same else p_variant) else 0
+            x = ("l", n_, t_) if t_ else ("l", n_)
+            if where == "p":
+                pos[j] = x
+            else:
+                kw[j] = (kw[j][0], x)
     hist = []
     if vals in OBJECT_FLAVOURS and distinct:
         def acc(x):
@@ -400,7 +443,55 @@ def generate(rng, tier, n):
         cases.append(mk_case(_fill(rng, kind, ar, nd, supplied, k, pattern, share=rng.random() < 0.5), "random"))
     cases.extend(_falsy_cases(rng, tier))
     cases.extend(_stateful_cases(rng, tier))
+    cases.extend(_constant_cases(rng, tier))
     return cases
+
+
+def _constant_cases(rng, tier) -> List[Case]:
+    """Every parameter receives exactly the constant written for it: symbolic calls with >= 2 ordinary-object arguments
+    drawn from a pool of ==-equal values of different types (1 / 1.0 / True / Fraction(1) / 1+0j, 0 / 0.0 / False, two
+    equal tuples, two equal frozensets), value-equal user objects and equal lists - the call log tells them apart by
+    identity."""
+    out: List[Case] = []
+    # deterministic: f(x, c1, c2) / f(c1, x, c2=...) for every pair of variants of one number
+    for kind in ("fn", "method", "pred"):
+        for fl, variants in CONST_VARIANTS.items():
+            vs = [0] + variants
+            for t1 in vs:
+                for t2 in vs:
+                    if t1 == t2 and fl != "list":
+                        continue
+                    n_ = rng.choice([0, 1, 1, 2]) if fl != "obj" else rng.choice([1, 2])
+                    k = rng.randrange(0, 4)
+                    sp = _fill(rng, kind, 3, rng.randrange(0, 2), [0, 1, 2], k, [True, False, False], share=False,
+                               vals=fl, p_acc=0.0, p_hist=0.0, p_variant=0.0, p_equal=0.0,
+                               falsy=(fl != "obj" and n_ == 0))
+                    c1 = ("l", n_, t1) if t1 else ("l", n_)
+                    c2 = ("l", n_, t2) if t2 else ("l", n_)
+                    names = [nm for nm, _ in sp.params]
+                    args = {names[0]: ("v", 0), names[1]: c1, names[2]: c2}
+                    if rng.random() < 0.5:
+                        args[names[0]], args[names[1]] = args[names[1]], args[names[0]]
+                    sp.pos = [args[nm] for nm in names[:k]]
+                    kwn = names[k:]
+                    rng.shuffle(kwn)
+                    sp.kw = [(nm, args[nm]) for nm in kwn]
+                    out.append(mk_case(sp, "exhaustive"))
+    for _ in range(500 if tier == "quick" else 4000):
+        kind = rng.choice(["fn", "method", "pred", "pred"])
+        ar = rng.randrange(3, 6)
+        nd = rng.randrange(0, ar + 1)
+        shapes = [sh for sh in _call_shapes(ar, nd) if len(sh[0]) >= 3]
+        supplied, k = rng.choice(shapes)
+        m = len(supplied)
+        nvar = rng.randint(0 if rng.random() < 0.1 else 1, m - 2)  # at least two constants
+        pattern = [True] * nvar + [False] * (m - nvar)
+        rng.shuffle(pattern)
+        fl = rng.choice(["int", "int", "obj", "fobj", "list"])
+        out.append(mk_case(_fill(rng, kind, ar, nd, supplied, k, pattern, share=rng.random() < 0.2,
+                                 neg=rng.random() < 0.4, vals=fl, falsy=fl != "obj" and rng.random() < 0.4,
+                                 p_variant=0.6, p_equal=0.75), "random"))
+    return out
 
 
 def _stateful_cases(rng, tier) -> List[Case]:
@@ -543,6 +634,12 @@ def shrink(case: Case):
     if sp.knobs:
         add(lambda c: setattr(c, "knobs", {}))
     for j, x in enumerate(sp.pos):
+        if x[0] == "l" and len(x) > 2:
+            add(lambda c, j=j: c.pos.__setitem__(j, ("l", c.pos[j][1])))
+    for j, (nm, x) in enumerate(sp.kw):
+        if x[0] == "l" and len(x) > 2:
+            add(lambda c, j=j: c.kw.__setitem__(j, (c.kw[j][0], ("l", c.kw[j][1][1]))))
+    for j, x in enumerate(sp.pos):
         if x[0] == "a":
             add(lambda c, j=j: c.pos.__setitem__(j, ("v", c.pos[j][1])))
     for j, (nm, x) in enumerate(sp.kw):
@@ -552,7 +649,7 @@ def shrink(case: Case):
         for o in sorted(sp.hist[h]):
             if len(sp.hist[h]) > 1:
                 add(lambda c, h=h, o=o: c.hist[h].pop(o))
-    if not sp.hist and not any(x[0] == "a" for x in sp.written()):
+    if not sp.hist and not any(x[0] == "a" or len(x) > 2 for x in sp.written()):
         add(lambda c: setattr(c, "vals", "obj"))
     add(lambda c: (setattr(c, "salt", 0), setattr(c, "mod", 2)))
     # drop the last parameter if it is not supplied, or supplied by keyword / last positional
@@ -639,6 +736,31 @@ class _F(_V):
         return self.code != 0
 
 
+class _E(_V):
+    """a value-equal user object: == and hash by number, distinct instances"""
+    __slots__ = ("variant",)
+
+    def __init__(self, code, variant):
+        self.code = code
+        self.variant = variant
+
+    def __eq__(self, other):
+        return isinstance(other, _E) and other.code == self.code
+
+    def __hash__(self):
+        return hash(("E", self.code))
+
+    def __repr__(self):
+        return f"E{self.code}~{self.variant}"
+
+
+class _EF(_E):
+    __slots__ = ()
+
+    def __bool__(self):
+        return self.code != 0
+
+
 class _Holder:
     __slots__ = ("inner",)
 
@@ -698,9 +820,39 @@ class _World:
         self.returned: List[Any] = []
         self.pool: Dict[int, Any] = {}
         self.cands: Dict[int, Any] = {}
+        self.consts: Dict[Tuple[int, int], Any] = {}
+        self.reg: Dict[int, Tuple[Any, int, int]] = {}  # id(constant) -> (constant, number, variant)
         self.var_of: Dict[int, int] = {}  # id(variable object) -> variable number
         self.T = {"obj": _CAND["obj"], "int": int, "intF": int, "fobj": _CAND["fobj"], "str": str,
                   "list": list}[sp.vals]
+
+    def const(self, n: int, t: int):
+        """the written constant number n in variant t (t = 0: the plain value): one object per (n, t) and case;
+        constants with equal n compare == but are different objects / of different types"""
+        if not t:
+            return self.val(n)
+        if (n, t) not in self.consts:
+            fl = self.sp.vals
+            if fl == "int":
+                import fractions
+                v: Any = {1: lambda: float(n), 2: lambda: bool(n) if n in (0, 1) else fractions.Fraction(n),
+                          3: lambda: fractions.Fraction(n), 4: lambda: complex(n), 5: lambda: tuple([n]),
+                          6: lambda: tuple([n]), 7: lambda: frozenset([n]), 8: lambda: frozenset([n])}[t]()
+            elif fl == "obj":
+                v = _E(n, t)
+            elif fl == "fobj":
+                v = _EF(n, t)
+            elif fl == "list":
+                v = [None] * n
+            else:
+                raise ValueError(f"no constant variants in flavour {fl}")
+            self.consts[(n, t)] = v
+            self.reg[id(v)] = (v, n, t)
+        return self.consts[(n, t)]
+
+    def _registered(self, v):
+        r = self.reg.get(id(v))
+        return r if r is not None and r[0] is v else None
 
     def cand(self, oid: int):
         """the candidate (domain element) with this identity; in the object flavours a mutable object distinct from
@@ -745,6 +897,9 @@ class _World:
     def show(self, v) -> str:
         if isinstance(v, self.SE):
             return f"?{self.var_of.get(id(v), '?')}"
+        r = self._registered(v)
+        if r is not None:
+            return f"{r[1]}~{r[2]}"
         if isinstance(v, _V):
             return str(v.code)
         if isinstance(v, _Recv):
@@ -761,6 +916,9 @@ class _World:
         return "other:" + type(v).__name__
 
     def code(self, v) -> int:
+        r = self._registered(v)
+        if r is not None:
+            return r[1] + r[2]  # the body tells the variants apart
         if isinstance(v, _V):
             return v.code
         if isinstance(v, bool):
@@ -856,7 +1014,7 @@ def _one(sp: Spec) -> str:
                 return variables[x[1]]
             if x[0] == "a":
                 return ACCESSORS[x[2]][1](variables[x[1]])
-            return w.val(x[1])
+            return w.const(x[1], x[2] if len(x) > 2 else 0)
 
         pos = [arg(x) for x in sp.pos]
         kw = {n: arg(x) for n, x in sp.kw}
@@ -914,7 +1072,10 @@ def oracle(sp: Spec) -> str:
     sig = inspect.Signature(params)
 
     def body(t):
-        return (sp.salt + sum((j + 1) * v for j, v in enumerate(t))) % sp.mod
+        return (sp.salt + sum((j + 1) * (v % 1000 + v // 1000) for j, v in enumerate(t))) % sp.mod
+
+    def sv(v):
+        return str(v) if v < 1000 else f"{v % 1000}~{v // 1000}"
 
     def call(env, world=None):
         world = world or {}
@@ -924,7 +1085,7 @@ def oracle(sp: Spec) -> str:
                 return world.get(env[x[1]], env[x[1]])
             if x[0] == "a":
                 return world.get(env[x[1]], env[x[1]]) + 100 * x[2]
-            return x[1]
+            return x[1] + 1000 * (x[2] if len(x) > 2 else 0)
         ba = sig.bind(*(recv + [a(x) for x in sp.pos]), **{n: a(x) for n, x in sp.kw})
         ba.apply_defaults()
         return tuple(ba.arguments[p.name] for p in params)
@@ -936,14 +1097,14 @@ def oracle(sp: Spec) -> str:
     order = sp.var_order()
     if not order:
         t = call({})
-        return "C (" + ",".join(map(str, t)) + ") " + ("T" if body(t) else "F")
+        return "C (" + ",".join(map(sv, t)) + ") " + ("T" if body(t) else "F")
     outs = []
     for world in [{}] + list(sp.hist):
         log, rows = [], set()
         for combo in itertools.product(*[sp.doms[i] for i in order]):
             env = dict(zip(order, combo))
             t = call(env, world)
-            log.append("(" + ",".join(map(str, t)) + ")")
+            log.append("(" + ",".join(map(sv, t)) + ")")
             if bool(body(t)) != sp.neg:
                 rows.add("(" + ",".join(str(env[i]) for i in order) + ")")
         outs.append("S log=[" + ",".join(sorted(log)) + "] rows=[" + ",".join(sorted(rows)) + "]")
